@@ -298,6 +298,21 @@ m("c18_peek_swallow", "C18", BR, """                    Err(ref e) if e.kind() =
             }
         }
     };""")
+m("c18_skip_io_to_missing_end", "C18", MOD, """                Err(e) => {
+                    $self.config_mut().trim_text_start = trim;
+                    return Err(e);
+                }
+
+                Ok(Event::Start(e)) if e.name() == $end => depth += 1,""", """                Err(Error::Io(_)) => {
+                    $self.config_mut().trim_text_start = trim;
+                    return Err(Error::missed_end($end, $self.decoder()));
+                }
+                Err(e) => {
+                    $self.config_mut().trim_text_start = trim;
+                    return Err(e);
+                }
+
+                Ok(Event::Start(e)) if e.name() == $end => depth += 1,""")
 m("c18_text_partial_event", "C18", BR, """                    Err(e) => {
                         *position += read;
                         return ReadTextResult::Err(e);
